@@ -7,6 +7,8 @@ use crate::cpu::Cpu;
 use crate::harness::src::Src;
 
 pub const IMG_MAX: usize = 560;
+pub const IMG_FILE: usize = 520; // SH_OFF + 6 * 40 = 516, padded to a multiple of 8
+pub const DRAM_MODEL: usize = 0x18000;
 pub static mut IMG: [u8; IMG_MAX] = [0; IMG_MAX];
 pub static mut IMG_LEN: usize = 0;
 
@@ -20,16 +22,91 @@ pub fn ghost_read_elf(_path: String) -> Vec<u8> {
 /// `--max-field-sensitivity-array-size` >= IMG_MAX so that the constant bytes stay constants next to the
 /// symbolic ones.
 pub fn ghost_read_elf_bytewise(_path: String) -> Vec<u8> {
-    let mut v: Vec<u8> = Vec::with_capacity(IMG_MAX);
-    let n = unsafe { IMG_LEN };
-    let mut i = 0;
-    while i < IMG_MAX {
-        if i < n {
-            v.push(unsafe { IMG[i] });
-        }
-        i += 1;
-    }
+    std::mem::forget(_path);
+    // 520 single-byte pushes into a buffer of fixed capacity, written out without a loop (a harness loop of 520
+    // iterations would dictate the global unwinding bound).  (`Box::new(IMG) as Box<[u8]>` + `into_vec()` made CBMC
+    // report a double free of the buffer at the end of `load` - not reproducible natively.)
+    let mut v: Vec<u8> = Vec::with_capacity(IMG_FILE);
+    push8(&mut v, 0);
+    push8(&mut v, 8);
+    push8(&mut v, 16);
+    push8(&mut v, 24);
+    push8(&mut v, 32);
+    push8(&mut v, 40);
+    push8(&mut v, 48);
+    push8(&mut v, 56);
+    push8(&mut v, 64);
+    push8(&mut v, 72);
+    push8(&mut v, 80);
+    push8(&mut v, 88);
+    push8(&mut v, 96);
+    push8(&mut v, 104);
+    push8(&mut v, 112);
+    push8(&mut v, 120);
+    push8(&mut v, 128);
+    push8(&mut v, 136);
+    push8(&mut v, 144);
+    push8(&mut v, 152);
+    push8(&mut v, 160);
+    push8(&mut v, 168);
+    push8(&mut v, 176);
+    push8(&mut v, 184);
+    push8(&mut v, 192);
+    push8(&mut v, 200);
+    push8(&mut v, 208);
+    push8(&mut v, 216);
+    push8(&mut v, 224);
+    push8(&mut v, 232);
+    push8(&mut v, 240);
+    push8(&mut v, 248);
+    push8(&mut v, 256);
+    push8(&mut v, 264);
+    push8(&mut v, 272);
+    push8(&mut v, 280);
+    push8(&mut v, 288);
+    push8(&mut v, 296);
+    push8(&mut v, 304);
+    push8(&mut v, 312);
+    push8(&mut v, 320);
+    push8(&mut v, 328);
+    push8(&mut v, 336);
+    push8(&mut v, 344);
+    push8(&mut v, 352);
+    push8(&mut v, 360);
+    push8(&mut v, 368);
+    push8(&mut v, 376);
+    push8(&mut v, 384);
+    push8(&mut v, 392);
+    push8(&mut v, 400);
+    push8(&mut v, 408);
+    push8(&mut v, 416);
+    push8(&mut v, 424);
+    push8(&mut v, 432);
+    push8(&mut v, 440);
+    push8(&mut v, 448);
+    push8(&mut v, 456);
+    push8(&mut v, 464);
+    push8(&mut v, 472);
+    push8(&mut v, 480);
+    push8(&mut v, 488);
+    push8(&mut v, 496);
+    push8(&mut v, 504);
+    push8(&mut v, 512);
     v
+}
+
+#[inline(never)]
+fn push8(v: &mut Vec<u8>, o: usize) {
+    unsafe {
+        v.push(IMG[o]);
+        v.push(IMG[o + 1]);
+        v.push(IMG[o + 2]);
+        v.push(IMG[o + 3]);
+        v.push(IMG[o + 4]);
+        v.push(IMG[o + 5]);
+        v.push(IMG[o + 6]);
+        v.push(IMG[o + 7]);
+    }
 }
 
 /// Contract stub for `string_table::parse_string_table_entry` (the real parser is decided on its own in
@@ -105,16 +182,14 @@ const SEG1_FILESZ: u32 = 16;
 const SEG1_MEMSZ: u32 = 24;
 const SEG2_VADDR: u32 = 0x40;
 const SEG2_FILESZ: u32 = 8;
-const SEG2_MEMSZ: u32 = 16;
 const GOT_ADDR: u32 = 0x08;
-const STACK_SIZE: u32 = 0x1003;
 
 /// Builds the image.  `variant` 0: program headers [LOAD, NOTE, LOAD]; 1: [LOAD, LOAD, NOTE]
 /// (a non-load header last: the image end is the highest PT_LOAD extent, not the last header's).
-fn build(variant: u8, seg1: &[u8; 16], seg2: &[u8; 8], exit_value: u32) {
+fn build(variant: u8, seg1: &[u8; 16], seg2: &[u8; 8], exit_value: u32, seg2_memsz: u32, stack_size: u32, omit: u8) {
     unsafe {
         IMG = [0; IMG_MAX];
-        IMG_LEN = SH_OFF + 6 * 40;
+        IMG_LEN = IMG_FILE;
     }
     pstr(0, b"\x7fELF");
     unsafe {
@@ -137,11 +212,16 @@ fn build(variant: u8, seg1: &[u8; 16], seg2: &[u8; 8], exit_value: u32) {
     p16(50, 3); // e_shstrndx
     let (o1, o2, o3) = if variant == 0 { (52, 116, 84) } else { (52, 84, 116) };
     phdr(o1, 1, SEG1_OFF as u32, SEG1_VADDR, SEG1_FILESZ, SEG1_MEMSZ);
-    phdr(o2, 1, SEG2_OFF as u32, SEG2_VADDR, SEG2_FILESZ, SEG2_MEMSZ);
+    phdr(o2, 1, SEG2_OFF as u32, SEG2_VADDR, SEG2_FILESZ, seg2_memsz);
     phdr(o3, 4, SHSTR_OFF as u32, 0, 0, 0); // PT_NOTE, empty
     pstr(SEG1_OFF, seg1);
     pstr(SEG2_OFF, seg2);
-    pstr(SHSTR_OFF, b"\0.got\0.stack\0.symtab\0.strtab\0.shstrtab\0");
+    // "\0.got\0.stack\0.symtab\0.strtab\0.shstrtab\0" in pieces (keeps the harness loops, and with them the
+    // global unwinding bound, short)
+    pstr(SHSTR_OFF, b"\0.got\0.stack\0");
+    pstr(SHSTR_OFF + 13, b".symtab\0");
+    pstr(SHSTR_OFF + 21, b".strtab\0");
+    pstr(SHSTR_OFF + 29, b".shstrtab\0");
     pstr(STR_OFF, b"\0main\0___exit\0");
     // symbols: [null], main, ___exit
     p32(SYM_OFF + 16, 1);
@@ -152,9 +232,18 @@ fn build(variant: u8, seg1: &[u8; 16], seg2: &[u8; 8], exit_value: u32) {
     shdr(SH_OFF + 40, 13, 2, 0, SYM_OFF as u32, 48, 5, 16);
     shdr(SH_OFF + 80, 1, 1, GOT_ADDR, (SEG1_OFF as u32) + GOT_ADDR, 8, 0, 4);
     shdr(SH_OFF + 120, 29, 3, 0, SHSTR_OFF as u32, 39, 0, 0);
-    shdr(SH_OFF + 160, 6, 8, STACK_SIZE, 0, 0, 0, 0);
+    shdr(SH_OFF + 160, 6, 8, stack_size, 0, 0, 0, 0);
     shdr(SH_OFF + 200, 21, 3, 0, STR_OFF as u32, 14, 0, 0);
+    // `omit`: 1 = the file has no `.stack` section, 2 = no `.symtab` section (the name is altered)
+    unsafe {
+        if omit == 1 {
+            IMG[SHSTR_OFF + 8] = b'k';
+        } else if omit == 2 {
+            IMG[SHSTR_OFF + 14] = b'x';
+        }
+    }
 }
+
 
 fn dram(cpu: &Cpu, addr: u32) -> u8 {
     cpu.bus.dram[(addr - 0x400000) as usize]
@@ -166,7 +255,7 @@ fn dram32(cpu: &Cpu, addr: u32) -> u32 {
 pub const ARG_MAX: usize = 4;
 
 pub fn load_skeleton<S: Src>(s: &mut S, variant: u8, env_aspects: bool) {
-    load_skeleton_args(s, variant, env_aspects, None)
+    load_skeleton_args(s, variant, env_aspects, None, 16, 0x1003, 0)
 }
 
 pub const ARGS0: &[u8] = b"";
@@ -176,7 +265,7 @@ pub const ARGS2: &[u8] = b" ab";
 /// `fixed`: the argument string as a call-site constant (at most ARG_MAX bytes).  With a symbolic
 /// argument string the addresses of the argument block become symbolic (word lengths), i.e. symbolic-index
 /// writes into the 2 MiB DRAM array, which CBMC cannot encode (C09).
-pub fn load_skeleton_args<S: Src>(s: &mut S, variant: u8, env_aspects: bool, fixed: Option<&'static [u8]>) {
+pub fn load_skeleton_args<S: Src>(s: &mut S, variant: u8, env_aspects: bool, fixed: Option<&'static [u8]>, seg2_memsz: u32, stack_size: u32, omit: u8) {
     let mut seg1 = [0u8; 16];
     let mut seg2 = [0u8; 8];
     let mut i = 0;
@@ -215,12 +304,24 @@ pub fn load_skeleton_args<S: Src>(s: &mut S, variant: u8, env_aspects: bool, fix
     }
     let g0 = u32::from_be_bytes([seg1[8], seg1[9], seg1[10], seg1[11]]);
     let g1 = u32::from_be_bytes([seg1[12], seg1[13], seg1[14], seg1[15]]);
-    // relocated values stay 32-bit quantities (no wrap past 2^32); the carry into the top byte is in range
-    s.assume(g0 <= 0xffffffff - BASE && g1 <= 0xffffffff - BASE && exit_value <= 0xffffffff - BASE);
-    build(variant, &seg1, &seg2, exit_value);
+    // every 32-bit GOT entry value: the relocated value is the sum modulo 2^32; the ___exit value is an address
+    // inside the image in every generated file (no wrap past 2^32)
+    s.assume(exit_value <= 0xffffffff - BASE);
+    build(variant, &seg1, &seg2, exit_value, seg2_memsz, stack_size, omit);
     let mut args = String::new();
     match fixed {
-        Some(t) => args.push_str(unsafe { core::str::from_utf8_unchecked(t) }),
+        Some(t) => {
+            // byte by byte into a buffer of fixed capacity: after a memcpy (`push_str`) the bytes would no
+            // longer be constants for CBMC's symbolic execution and the word boundaries would fork
+            if t.len() > 0 {
+                args = String::with_capacity(8);
+            }
+            let mut k = 0;
+            while k < t.len() {
+                args.push(t[k] as char);
+                k += 1;
+            }
+        }
         None => {
             i = 0;
             while i < ARG_MAX {
@@ -232,6 +333,14 @@ pub fn load_skeleton_args<S: Src>(s: &mut S, variant: u8, env_aspects: bool, fix
         }
     }
     let mut cpu = Cpu::new();
+    // `load` indexes `bus.dram` directly (bounds-checked).  Under Kani the 2 MiB array is replaced by the
+    // first DRAM_MODEL bytes (the skeleton's image, stack, TCB and argument block end below H'418000): an
+    // access beyond it would fail Kani's index check, not pass silently.  CBMC ran out of memory (24 GB)
+    // converting the copies into the full-size array.
+    #[cfg(kani)]
+    {
+        cpu.bus.dram = vec![0u8; DRAM_MODEL].into_boxed_slice();
+    }
     #[cfg(not(kani))]
     let path = {
         let p = std::env::temp_dir().join(format!("h8verif_elf_{}.elf", std::process::id()));
@@ -267,18 +376,18 @@ pub fn load_skeleton_args<S: Src>(s: &mut S, variant: u8, env_aspects: bool, fix
         }
         i += 1;
     }
-    if dram(&cpu, BASE - 1) != 0 || dram(&cpu, BASE - 2) != 0 || dram(&cpu, 0x400000) != 0 || dram(&cpu, 0x5fffff) != 0 {
+    if dram(&cpu, BASE - 1) != 0 || dram(&cpu, BASE - 2) != 0 || dram(&cpu, 0x400000) != 0 || dram(&cpu, 0x400000 + DRAM_MODEL as u32 - 1) != 0 {
         ok_zero = false;
     }
-    let ok_got = dram32(&cpu, BASE + GOT_ADDR) == g0 + BASE && dram32(&cpu, BASE + GOT_ADDR + 4) == g1 + BASE;
+    let ok_got = dram32(&cpu, BASE + GOT_ADDR) == g0.wrapping_add(BASE) && dram32(&cpu, BASE + GOT_ADDR + 4) == g1.wrapping_add(BASE);
     let ok_outside = cpu.bus.memory[0] == 0 && cpu.bus.memory[0x1000] == 0 && cpu.bus.exception_handling_vector[0] == 0 && cpu.bus.io_registrs1[0x20] == 0;
 
     // ---- C12: process environment
-    let image_end = BASE + SEG2_VADDR + SEG2_MEMSZ; // highest PT_LOAD extent
-    let stack_end = (image_end + STACK_SIZE + 3) & !3;
+    let image_end = BASE + SEG2_VADDR + seg2_memsz; // highest PT_LOAD extent
+    let stack_end = (image_end + stack_size + 3) & !3;
     let ok_entry = cpu.er[2] == BASE && cpu.er[5] == BASE + GOT_ADDR;
     let ok_sp = cpu.er[7] == stack_end - 8 && cpu.er[7] & 3 == 0;
-    let ok_exit = cpu.exit_addr == exit_value + BASE;
+    let ok_exit = cpu.exit_addr == exit_value.wrapping_add(BASE);
     // reference split of the argument string
     let mut words: [[u8; ARG_MAX]; 2] = [[0; ARG_MAX]; 2];
     let mut wlen = [0usize; 2];
@@ -351,8 +460,48 @@ pub fn load_skeleton_args<S: Src>(s: &mut S, variant: u8, env_aspects: bool, fix
     witness!(g0 > 0x00ffffff - BASE && g0 < 0x01000000, "GOT sum carries into the top byte");
     std::mem::forget(cpu);
     if env_aspects {
-        verdict!("entry" => ok_entry, "stack_pointer" => ok_sp, "exit_addr" => ok_exit, "args" => ok_args, "layout" => ok_layout);
+        // a file without `.stack` leaves ER7/ER0/ER1 alone, one without `.symtab` the exit address
+        let no_stack = omit == 1;
+        let no_symtab = omit == 2;
+        verdict!("entry" => ok_entry, "stack_pointer" => ok_sp || no_stack, "exit_addr" => ok_exit || no_symtab, "args" => ok_args || no_stack, "layout" => ok_layout || no_stack);
     } else {
         verdict!("segments" => ok_segments, "zero_fill" => ok_zero, "got" => ok_got, "outside_dram" => ok_outside);
     }
+}
+
+/// Feasibility probe (not part of any property): the `Vec<&str>` idiom of `load`'s argument handling.
+#[inline(never)]
+fn probe_inner(cpu: &mut Cpu, args: String, mut a: usize) -> u32 {
+    log::info!("args: [{}]", args);
+    let mut args_list: Vec<&str> = args.split_whitespace().collect();
+    args_list.insert(0, "prog.elf");
+    cpu.er[0] = args_list.len() as u32;
+    log::trace!("Set er0 [0x{:x}]", cpu.er[0]);
+    let mut argp = a;
+    a += 4 * (args_list.len() + 1);
+    let mut n = 0u32;
+    for arg in args_list {
+        let argp_i = argp - 0x400000;
+        cpu.bus.dram[argp_i..argp_i + 4].copy_from_slice(&(a as u32).to_be_bytes());
+        argp += 4;
+        for c in arg.as_bytes() {
+            cpu.bus.dram[a - 0x400000] = *c;
+            a += 1;
+            n += *c as u32;
+        }
+        cpu.bus.dram[a - 0x400000] = 0;
+        a += 1;
+    }
+    n
+}
+
+pub fn probe_vec_str<S: Src>(s: &mut S) {
+    let x = s.u8();
+    let mut cpu = Cpu::new();
+    cpu.bus.dram = vec![0u8; DRAM_MODEL].into_boxed_slice();
+    let args = String::with_capacity(8);
+    let n = probe_inner(&mut cpu, args, 0x417000);
+    witness!(x == 3, "reached");
+    std::mem::forget(cpu);
+    verdict!("sum" => n == 0x70 + 0x72 + 0x6f + 0x67 + 0x2e + 0x65 + 0x6c + 0x66);
 }
